@@ -324,7 +324,16 @@ pub fn exec_once<'k>(
     let mut tape = Tape::new(words, raw);
     let r = match catch_unwind(AssertUnwindSafe(|| run(&mut tape, &mut cx))) {
         Ok(r) => r,
-        Err(_) => Err(format!("panic: {}", take_panic())),
+        Err(_) => {
+            let m = take_panic();
+            // a panic raised at a harness source location is a harness defect, not a verdict
+            let at = m.rsplit(" at ").next().unwrap_or("");
+            if at.starts_with("src/") {
+                Err(format!("HARNESS-PANIC: {}", m))
+            } else {
+                Err(format!("panic: {}", m))
+            }
+        }
     };
     let key = tape.key();
     (r, cx, key)
